@@ -74,6 +74,7 @@ def run(ctx):
         elif dgram or any(x[1].name == "Receiver::recv" for x in srcs):
             perflow.append(b)
     ctx.floor("L1", "service loops (TCP/TLS/QUIC accept, server UDP, client TCP accept, client UDP)", 6, len(service))
+    l6_sibling_listeners(ctx, bodies, {b_.root for (b_, _, _) in service})
     ctx.floor("L1", "per-flow loops (association task, binding reply task, ...)", 1, len(perflow))
     for (b, (h, body), src) in service:
         src_results = set()
@@ -423,3 +424,59 @@ def _instantiations(prog, root, param_name):
                     if d and d in prog.bodies and "new_" in d and "outbound" in d:
                         out.add(d)
     return sorted(out)
+
+
+def l6_sibling_listeners(ctx, bodies, service_roots):
+    """L6: the listeners of one configuration entry (TCP accept loop, datagram loop, QUIC endpoint) are siblings: where a function drives two of
+    them in one task, the end of one must not cancel the other. `join!` lets the survivor run on; `try_join!` and `select!` drop it together with
+    its listening socket the moment the other returns (an error that one hostile datagram can cause then also ends TCP service)."""
+    prog = ctx.prog
+    memo = {}
+
+    def reaches(target, depth=0):
+        tb = prog.body(target)
+        if tb is None:
+            return False
+        r = tb.root
+        if r in service_roots:
+            return True
+        if r in memo:
+            return memo[r]
+        memo[r] = False
+        if depth < 3:
+            for fb in prog.family(r):
+                for (_, c, _) in fb.calls():
+                    if c.target.startswith("octo_squirrel") and reaches(c.target, depth + 1):
+                        memo[r] = True
+                        return True
+        return memo[r]
+
+    n = 0
+    roots = sorted({b.root for b in bodies})
+    for r in roots:
+        if r in service_roots:
+            continue
+        fam = prog.family(r)
+        callees = {}
+        for fb in fam:
+            for (blk, c, t) in fb.calls():
+                if c.target.startswith("octo_squirrel") and prog.body(c.target) is not None and prog.body(c.target).root != r and reaches(c.target):
+                    callees.setdefault(prog.body(c.target).root, t)
+        if len(callees) < 2:
+            continue
+        joiners = [fb for fb in fam if sum(1 for (_, c, _) in fb.calls() if c.name == "MaybeDone::take_output") >= 2]
+        tryj = [fb for fb in joiners if any(c.name == "Result::is_err" for (_, c, _) in fb.calls())]
+        # tokio::select! leaves a `BRANCHES` constant next to the futures it races; the race is over service loops when the body that holds it
+        # creates their futures itself
+        selectors = [fb for fb in fam if prog.body(fb.defp + "::BRANCHES") is not None or any(x.defp == fb.defp + "::BRANCHES" for x in prog.prod_bodies() if x.defp.startswith(fb.defp))]
+        selectors = [fb for fb in selectors if len({prog.body(c.target).root for (_, c, _) in fb.calls() if prog.body(c.target) is not None and prog.body(c.target).root in callees}) >= 2]
+        if not joiners and not selectors:
+            continue
+        n += 1
+        names = sorted(last_seg(x) for x in callees)
+        bad = tryj or selectors
+        ctx.ob("L6", r, "sibling-listeners-survive-each-other", loc(prog.body(r).sp), not bad,
+               f"the listeners {names} are driven with join!: each runs until it ends by itself" if not bad else
+               f"the listeners {names} are driven with {'try_join!' if tryj else 'select!'}: when one of them returns (the datagram loop propagates per-flow errors with `?`) the "
+               "other is dropped with its listening socket — one failing flow on one transport ends the service on the other", ordinal=False)
+    ctx.ob("L6", "workspace", "sibling-listener-joins-inventoried", "-", True, f"{n} function(s) drive two or more service loops in one task", nontrivial=False, ordinal=False)
